@@ -90,10 +90,13 @@ def run_mia(t, d, edges, classes, precision):
     return o, np.asarray(o.compute())
 
 
-def compare_case(chk, case, res, t, d, edges, tag, key):
+def compare_case(chk, case, res, t, d, edges, tag, key, precs=('uint32', 'float32', 'float64'), rep=1):
+    """rep > 1: the whole dataset presented rep times - every count is multiplied by rep, every probability (hence the MI) is unchanged"""
     c = case['c']
     S, W, B, C = c['S'], c['W'], len(c['edges']) - 1, len(c['classes'])
-    for prec in ('uint32', 'float32', 'float64'):
+    if rep > 1:
+        t, d = np.tile(t, (rep, 1)), np.tile(d, (rep, 1))
+    for prec in precs:
         try:
             o, got = run_mia(t, d, edges, c['classes'], prec)
         except Exception as ex:
@@ -103,16 +106,16 @@ def compare_case(chk, case, res, t, d, edges, tag, key):
         want = np.zeros((S, B, C, W))
         for j, h in enumerate(res['hist']):
             w, s = j // S, j % S
-            want[s, :, :, w] = np.array(h, dtype='float64')
-        chk.count((tag, key, prec, 'hist'), nontrivial=True)
+            want[s, :, :, w] = np.array(h, dtype='float64') * rep
+        chk.count((tag, key, prec, 'hist', rep), nontrivial=True)
         if acc.shape != want.shape or not np.array_equal(acc, want):
             chk.violation(f'{tag}:joint histogram counts each sample in the bin of the configured edges and the class of its value',
-                          {'property': 'C13', 'case': case, 'edges': np.asarray(edges).tolist(), 'traces': t.tolist(), 'precision': prec,
+                          {'property': 'C13', 'case': case, 'edges': np.asarray(edges).tolist(), 'traces': t[:len(t) // rep].tolist(), 'precision': prec, 'repeated': rep,
                            'expected_hist_SBCW': want.tolist(), 'got': acc.tolist()}, f'{tag}/{prec}: joint histogram differs from the specification')
             continue
         for j, terms in enumerate(res['terms']):
             w, s = j // S, j % S
-            chk.count((tag, key, prec, j), nontrivial=len(terms) >= 2)
+            chk.count((tag, key, prec, j, rep), nontrivial=len(terms) >= 2)
             if not terms:
                 continue            # nothing in range for this (word, sample): MI undefined, not claimed
             want_mi = mi_value(terms)
@@ -128,7 +131,7 @@ def compare_case(chk, case, res, t, d, edges, tag, key):
             elif g < -tol:
                 bad = 'result is never negative beyond rounding'
             if bad:
-                chk.violation(f'{tag}:{bad}', {'property': 'C13', 'case': case, 'precision': prec, 'entry': [w, s], 'got': g, 'expected': want_mi, 'terms': terms},
+                chk.violation(f'{tag}:{bad}', {'property': 'C13', 'case': case, 'precision': prec, 'repeated': rep, 'entry': [w, s], 'got': g, 'expected': want_mi, 'terms': terms},
                               f'{tag}/{prec}: MI[{w},{s}] = {g}, expected {want_mi}')
 
 
@@ -163,6 +166,13 @@ def int_cases(chk, rng):
         d = np.array([r['d'] for r in case['rows']], dtype='uint16')
         edges = np.array(c['edges'], dtype='float64') * sc
         compare_case(chk, case, rs, t, d, edges, 'integer-edges', ci)
+        # narrow count types: every histogram cell fits the type although the number of traces does not (totals are not cells)
+        top = max([max(max(row) for row in h) for h in rs['hist']] + [1])
+        n = len(case['rows'])
+        if ci % 3 == 1 and top * (300 // n + 1) <= 255:
+            compare_case(chk, case, rs, t, d, edges, 'integer-edges', ci, precs=('uint8',), rep=300 // n + 1)
+        if ci % 6 == 2 and top * (66000 // n + 1) <= 65535:
+            compare_case(chk, case, rs, t, d, edges, 'integer-edges', ci, precs=('uint16',), rep=66000 // n + 1)
         chk.traces_validated += 1
     chk.sample({'mia_case': cases[1], 'expected': res[1]})
 
@@ -235,9 +245,13 @@ def replay(chk, path):
             return 1
         return 0
     case = rp['case']
+    if 'edges' not in rp:
+        print('re-run ./check C13 (MI term lists are recomputed by TLC from the seed); entry', rp.get('entry'), 'got', rp.get('got'), 'expected', rp.get('expected'))
+        return 0
     edges = np.array(rp['edges'])
-    t = np.array(rp['traces'])
-    d = np.array([r['d'] for r in case['rows']], dtype='uint16')
+    rep = rp.get('repeated', 1)
+    t = np.tile(np.array(rp['traces']), (rep, 1))
+    d = np.tile(np.array([r['d'] for r in case['rows']], dtype='uint16'), (rep, 1))
     o, _ = run_mia(t, d, edges, case['c']['classes'], rp['precision'])
     same = np.array_equal(np.asarray(o.accumulators, dtype='float64'), np.array(rp['expected_hist_SBCW']))
     print('histogram equals specification:', same)
